@@ -172,6 +172,8 @@ struct OneShot {
                                 h.unusual++;
                         if (!g_arena.canary_ok(so) || !g_arena.canary_ok(ss) || !g_arena.canary_ok(sl) || !g_arena.canary_ok(si)) {
                                 rr.fail("C05.canary", "bytes outside a declared buffer changed by isal_deflate_stateless");
+                                if (!g_arena.canary_ok(so) && rr.alt.empty())
+                                        rr.alt = "C10";
                                 return;
                         }
                         if (hash_bytes(si->data, n) != in_hash) {
